@@ -196,9 +196,11 @@ pub fn run() -> i32 {
     r.guard(a.variants.len() >= 35, "at least 35 distinct rule error variants were provoked");
     r.guard(a.not_triggered * 20 < a.evals, "fewer than 5% of planted faults failed to trigger");
     // ---- alias faults
-    let alias_faults_from = ["a >", "> x", "a:[+foo] > x", "a > x, y", "a:[+long > x", "[+voice > q", "a:[tone:12345] > x", "$ > x, y"];
+    let alias_faults_from = ["a >", "> x", "a:[+foo] > x", "a > x, y", "a:[+long > x", "[+voice > q", "a:[tone:12345] > x", "$ > x, y",
+        // a diacritic its segment cannot take (two positions: the segment and the diacritic), alone, as the second diacritic, before a matrix
+        "aʰ > ah", "a\u{303}ʰ > ah", "ʃaʰ:[+long] > x", "ɑ̪ > q"];
     // the last four: the fault comes after a precomposed letter (which word normalisation would expand to two characters)
-    let alias_faults_into = ["x >", "> a", "x > a:[+foo]", "x > [+voice]", "x > a:[-long, +overlong]", "x > a:[-stress, +sec.stress]", "ã >", "ãõ > a:[+foo]", "ẽ > [+voice]", "ɚ > a, b"];
+    let alias_faults_into = ["x >", "> a", "x > a:[+foo]", "x > [+voice]", "x > a:[-long, +overlong]", "x > a:[-stress, +sec.stress]", "ã >", "ãõ > a:[+foo]", "ẽ > [+voice]", "ɚ > a, b", "ah > aʰ", "ah > a\u{303}ʰ", "x > ʃaʰ:[+long]", "q > ɑ̪"];
     let words: Vec<String> = vec!["pa.ta".into(), "xa".into()];
     let mut al_cases = 0u64; let mut al_ok = 0u64;
     for (is_into, faults) in [(false, &alias_faults_from[..]), (true, &alias_faults_into[..])] {
